@@ -38,6 +38,16 @@ var registry = map[string]func(tier string) *Runner{}
 
 func Register(id string, f func(tier string) *Runner) { registry[id] = f }
 
+// Registered lists the scenario ids.
+func Registered() []string {
+	var ids []string
+	for id := range registry {
+		ids = append(ids, id)
+	}
+	sort.Strings(ids)
+	return ids
+}
+
 func Lookup(id, tier string) *Runner {
 	f := registry[id]
 	if f == nil {
